@@ -855,7 +855,28 @@ func assumedPlannerContracts(g *Graph) string {
 	}
 	for _, m := range g.nodes {
 		if m.providerSpec == nil {
+			// nodeDataPresent, argument: has its type expression and is used
+			if m.arg.ASTTypeExpr == nil {
+				return "nodeDataPresent: an argument node has no type expression"
+			}
+			if len(g.edges[m]) < 1 && (g.returnValue == nil || m != g.returnValue.node) {
+				return "nodeDataPresent: an argument node is used by nobody"
+			}
 			continue
+		}
+		// nodeDataPresent, provider
+		for _, imp := range m.providerSpec.ReferencedImports {
+			if imp == nil {
+				return "nodeDataPresent: a provider's import table has a nil entry"
+			}
+		}
+		for _, grp := range m.providerSpec.Provides {
+			if len(grp) < 1 {
+				return "nodeDataPresent: a provider supplies an empty group of types"
+			}
+		}
+		if m.providerSpec.Type == ProviderTypeFieldAccess && (m.providerSpec.SourceField == nil || len(m.providerSpec.Provides) < 1) {
+			return "nodeDataPresent: a field-access provider lacks its field or its value"
 		}
 		if m.providerSpec.Type == ProviderTypeFieldAccess && len(m.providerArgs) < 1 {
 			return "topoOK: a field-access node has no argument slot"
